@@ -266,7 +266,8 @@ impl<'a> SimStream<'a> {
                     let start = self.edges[i - 1];
                     let code = self.data.get(start).copied().unwrap_or(0);
                     self.stats.split_inside_event += 1;
-                    self.interleavings.insert(mix(mix(0x1D5E, code as u64), (lp - start) as u64));
+                    // (offsets far inside a huge block — Gecko data, megabyte metadata — are folded together)
+                    self.interleavings.insert(mix(mix(0x1D5E, code as u64), ((lp - start) as u64).min(1024)));
                 }
             }
         }
